@@ -11,7 +11,7 @@
    observed by the correspondence check, not proved. *)
 From Coq Require Import String Ascii List Bool Arith ZArith.
 Import ListNotations.
-Require Import PyBase Generated PyStr Symbols ParseEq ParseModel Classify BuildDef BuildDefFacts BuildDefExamples BuildRepr BuildReprFacts BuildIndentFacts.
+Require Import PyBase Generated PyStr Symbols ParseEq ParseModel Classify BuildDef BuildDefFacts BuildDefExamples BuildRepr BuildReprFacts BuildIndentFacts BuildRoutes BuildRoutesFacts BuildAgreeC01.
 Open Scope string_scope.
 
 (* the typed and the untyped template are the same text once the type hints are erased (kernel-checked on the strings
@@ -188,3 +188,42 @@ Theorem C15_code_is_text : forall St Cls (conv : St -> symbol -> St * string) (e
   build_model_M St Cls conv exec st syms o h = (st', Built c code) -> snd (build_def St conv st syms o h) = POk code.
 Proof. exact code_is_text. Qed.
 Print Assumptions C15_code_is_text.
+
+(* ---------- behavioural identity of the four routes ----------
+   BuildRoutes.exec_M models what exec makes of a text generated from either template, restricted to what the property
+   observes of a class: the tuple (ENDOGENOUS, EXOGENOUS, PARAMETERS, ERRORS, LAGS, LEADS, body of _evaluate); NAMES and
+   CHECK are fixed expressions of these inside a literal segment (BuildReprFacts.untyped_segment_heads). *)
+
+(* reading a generated text gives back exactly the fields it was generated from — either template, any names, any block *)
+Theorem C15_exec_of_generated_text : forall h c eqs, exec_M (fill h c eqs) = Some (tuple_of c eqs).
+Proof. exact exec_fill. Qed.
+Print Assumptions C15_exec_of_generated_text.
+Theorem C15_read_int_roundtrip : forall z rest, head_fails is_intc rest = true -> read_int (string_of_Z z ++ rest) = Some (z, rest).
+Proof. exact read_int_roundtrip. Qed.
+Print Assumptions C15_read_int_roundtrip.
+
+(* the four routes — build_model, exec of the definition text with and without type hints, exec of CODE — yield the same
+   class tuple: the lists and lengths of class_of, and the block of the converter run from the same state *)
+Theorem C15_four_routes : forall St (conv : St -> symbol -> St * string) st syms o c h, class_of syms o = Ret c ->
+  let T := the_class St conv st syms c in
+  (exists st' code, build_model_M St ctuple conv exec_oracle st syms o h = (st', Built T code) /\
+                    snd (build_def St conv st syms o h) = POk code /\ exec_M code = Some T) /\
+  (exists t1, snd (build_def St conv st syms o true) = POk t1 /\ exec_M t1 = Some T) /\
+  (exists t2, snd (build_def St conv st syms o false) = POk t2 /\ exec_M t2 = Some T).
+Proof. exact four_routes. Qed.
+Print Assumptions C15_four_routes.
+
+(* hence every function of the class — its evaluation semantics on all data included — has the same value on every route *)
+Theorem C15_routes_same_behaviour : forall St (conv : St -> symbol -> St * string) (B : Type) (sem : ctuple -> B) st syms o c t1 t2 T1 T2,
+  class_of syms o = Ret c ->
+  snd (build_def St conv st syms o true) = POk t1 -> snd (build_def St conv st syms o false) = POk t2 ->
+  exec_M t1 = Some T1 -> exec_M t2 = Some T2 -> sem T1 = sem T2.
+Proof. exact routes_same_behaviour. Qed.
+Print Assumptions C15_routes_same_behaviour.
+
+(* with the default converter that block is, for every symbol list, the block of C01's independently written model
+   (CodeGen/CodeGenBlock), whose statements C01's pass semantics interprets *)
+Theorem C15_default_block_is_C01_block : forall syms,
+  equations_block (snd (expressions unit conv_default tt syms)) = Fsic.CodeGen.CodeGenBlock.equations_block syms.
+Proof. exact default_block_is_C01_block. Qed.
+Print Assumptions C15_default_block_is_C01_block.
